@@ -14,10 +14,12 @@
 package main
 
 import (
+	"bytes"
 	"encoding/json"
 	"fmt"
 	"math"
 	"os"
+	"os/exec"
 	"path/filepath"
 	"sort"
 	"strconv"
@@ -394,16 +396,45 @@ type plotCase struct {
 	Format    string `json:"format,omitempty"`
 	Files     int    `json:"files,omitempty"`
 	Title     string `json:"title,omitempty"`
-	Probe     string `json:"probe,omitempty"` // regression probe: part of the violation kind
+	Probe     string `json:"probe,omitempty"`   // regression probe: part of the violation kind
+	Labeler   string `json:"labeler,omitempty"` // "" = ErrorLabeler (default / explicit), "code" = custom Labeler
+	Interim   bool   `json:"interim,omitempty"` // data() is also called half way through the Adds
+}
+
+// code: the status code of a generated result.  It is deliberately not a function of the error
+// flag: an error is set for transport failures (code 0), for failures while reading a 200 body,
+// and for 4xx/5xx; and a result without error may carry any code (only `Error` decides the series).
+func (x res) code() uint16 {
+	h := (x.Seq*2654435761 + uint64(x.TS)/7 + uint64(x.Lat)) % 8
+	if x.Err {
+		return []uint16{0, 0, 500, 503, 404, 200, 200, 302}[h]
+	}
+	return []uint16{200, 200, 200, 201, 204, 302, 404, 500}[h]
 }
 
 func (x res) result() *vegeta.Result {
-	r := &vegeta.Result{Attack: x.Attack, Seq: x.Seq, Code: 200, Timestamp: time.Unix(0, x.TS), Latency: time.Duration(x.Lat)}
+	r := &vegeta.Result{Attack: x.Attack, Seq: x.Seq, Code: x.code(), Timestamp: time.Unix(0, x.TS), Latency: time.Duration(x.Lat)}
 	if x.Err {
-		r.Error = "boom"
-		r.Code = 500
+		r.Error = []string{"boom", " ", "Get \"http://x\": EOF", "500 Internal Server Error"}[(x.Seq+uint64(x.Lat))%4]
+	}
+	if (x.Seq+uint64(x.TS))%3 == 0 { // fields the plot must ignore; non-empty only on some records
+		r.Body = []byte("body")
+		r.Method, r.URL = "GET", "http://x/"
+		r.BytesIn, r.BytesOut = 4, 9
 	}
 	return r
+}
+
+// labelOf: the series label of a result under the case's labeler ("" = plot.ErrorLabeler,
+// "code" = a custom Labeler: status class).
+func labelOf(labeler string, x res) string {
+	if labeler == "code" {
+		return fmt.Sprintf("%dxx", x.code()/100)
+	}
+	if x.Err {
+		return "ERROR"
+	}
+	return "OK"
 }
 
 func resultsTokens(rs []res) string {
@@ -415,7 +446,23 @@ func resultsTokens(rs []res) string {
 	return sb.String()
 }
 
+// plotOp: the model operation of a library case
+func plotOp(pc plotCase) string {
+	if pc.Labeler == "" {
+		return fmt.Sprintf("c17.plot %d %s", pc.Threshold, resultsTokens(pc.Results))
+	}
+	var sb strings.Builder
+	fmt.Fprintf(&sb, "c17.plotl %d %d", pc.Threshold, len(pc.Results))
+	for _, x := range pc.Results {
+		fmt.Fprintf(&sb, " %s %d %d %d %s", kit.HexS(x.Attack), x.Seq, x.TS, x.Lat, kit.HexS(labelOf(pc.Labeler, x)))
+	}
+	return sb.String()
+}
+
 type plotOut struct {
+	rows2    [][]float64 // second data() call on the same plot
+	labels2  []string
+	dataErr2 error
 	line     string
 	rows     [][]float64 // as returned (not canonicalised)
 	labels   []string
@@ -469,12 +516,28 @@ func dataLine(rows [][]float64, labels []string) string {
 
 func implPlot(pc plotCase, wantData bool) plotOut {
 	o := plotOut{addErr: -1}
-	p := plot.New(plot.Downsample(pc.Threshold))
+	var p *plot.Plot
+	switch {
+	case pc.Labeler == "code":
+		lab := plot.Label(func(r *vegeta.Result) string { return fmt.Sprintf("%dxx", r.Code/100) })
+		if len(pc.Results)%2 == 0 { // the options in either order
+			p = plot.New(lab, plot.Downsample(pc.Threshold), plot.Title("t"))
+		} else {
+			p = plot.New(plot.Title("t"), plot.Downsample(pc.Threshold), lab)
+		}
+	case len(pc.Results)%3 == 0: // ErrorLabeler given explicitly, as the command does
+		p = plot.New(plot.Label(plot.ErrorLabeler), plot.Downsample(pc.Threshold))
+	default:
+		p = plot.New(plot.Downsample(pc.Threshold))
+	}
 	var addErr error
 	idx := -1
 	pa, _ := kit.Recover(func() {
 		for i, x := range pc.Results {
 			idx = i
+			if pc.Interim && wantData && i == len(pc.Results)/2 {
+				p.VerifData() // the data may be asked for while results are still coming in
+			}
 			if addErr = p.Add(x.result()); addErr != nil {
 				return
 			}
@@ -497,6 +560,8 @@ func implPlot(pc plotCase, wantData bool) plotOut {
 	pd, _ := kit.Recover(func() {
 		p.Close()
 		o.rows, o.labels, o.dataErr = p.VerifData()
+		// the data are rendered from the plot's state: asking again gives the same data
+		o.rows2, o.labels2, o.dataErr2 = p.VerifData()
 	})
 	switch {
 	case pd:
@@ -540,6 +605,18 @@ func inDomain(rs []res) (map[string][]res, bool) {
 	return by, true
 }
 
+// oracleLib: the oracle on what the library shows for a case — on the first and on a second
+// rendering of the same plot.
+func oracleLib(s *kit.Summary, pc plotCase, o plotOut) {
+	oraclePlot(s, pc, o, "VerifData")
+	if o.panicked || o.addErr >= 0 || o.dataErr != nil || o.line == "ok" {
+		return
+	}
+	o2 := o
+	o2.rows, o2.labels, o2.dataErr = o.rows2, o.labels2, o.dataErr2
+	oraclePlot(s, pc, o2, "VerifData (second call)")
+}
+
 // oraclePlot evaluates the first sentence of the property (and, per series, the second) on
 // rows and labels produced by the real code for an in-domain result set.
 func oraclePlot(s *kit.Summary, pc plotCase, o plotOut, where string) {
@@ -554,10 +631,7 @@ func oraclePlot(s *kit.Summary, pc plotCase, o plotOut, where string) {
 	for a, xs := range by {
 		seen := map[string]bool{}
 		for _, x := range xs {
-			l := "OK"
-			if x.Err {
-				l = "ERROR"
-			}
+			l := labelOf(pc.Labeler, x)
 			ms := (x.TS - xs[0].TS) / 1e6
 			if !seen[l] {
 				seen[l] = true
@@ -713,7 +787,12 @@ func oraclePlot(s *kit.Summary, pc plotCase, o plotOut, where string) {
 	}
 }
 
-var attackPool = []string{"a", "aE", "aER", "aERR", "b", "", "attack-1", "attack-10", "50qps", "100qps", "ü", "a b", "A", "aO", "x,y"}
+var attackPool = []string{"a", "aE", "aER", "aERR", "b", "", "attack-1", "attack-10", "50qps", "100qps", "ü", "a b", "A", "aO", "x,y",
+	"a ", " ", "OK", "ERROR", "aERROR", "a: OK", "</script>", "a\"b", "a\\", "é"}
+
+// names that a careless key (case folding, trimming, concatenation with the label) would merge
+var confusable = [][2]string{{"a", "A"}, {"a", "a "}, {"", " "}, {"a", "aE"}, {"attack-1", "attack-10"}, {"a", "aERROR"},
+	{"OK", "ERROR"}, {"a", "a: OK"}, {"é", "e\u0301"}, {"aOK", "a"}}
 
 type genOpts struct {
 	maxResults int
@@ -743,6 +822,19 @@ func genResults(r *kit.Rng, g genOpts) []res {
 		na = total
 	}
 	perm := r.Perm(len(attackPool))
+	var names []string
+	used := map[string]bool{}
+	if na >= 2 && r.Chance(0.4) {
+		pr := confusable[r.Pick(len(confusable))]
+		names = append(names, pr[0], pr[1])
+		used[pr[0]], used[pr[1]] = true, true
+	}
+	for _, k := range perm {
+		if !used[attackPool[k]] {
+			names = append(names, attackPool[k])
+			used[attackPool[k]] = true
+		}
+	}
 	var out []res
 	left := total
 	for ai := 0; ai < na; ai++ {
@@ -751,8 +843,11 @@ func genResults(r *kit.Rng, g genOpts) []res {
 			n = 1 + r.Pick(left-(na-1-ai))
 		}
 		left -= n
-		name := attackPool[perm[ai]]
+		name := names[ai]
 		ts := int64(946684800e9) + r.Range(0, 3e18) // 2000-01-01 … ≈2095
+		if r.Chance(0.05) {
+			ts = -r.Range(1, 3e17) // before 1970
+		}
 		if r.Chance(0.3) {
 			ts = ts / 1e6 * 1e6 // on a millisecond boundary
 		}
@@ -1003,6 +1098,31 @@ func recordFlush(s *kit.Summary, pc plotCase) {
 func recordPlot(s *kit.Summary, pc plotCase, o plotOut) {
 	s.Case(plotCaseKey(pc), nontrivialPlot(pc))
 	recordFlush(s, pc)
+	err2xx, okNon2xx, names := false, false, map[string]bool{}
+	for _, x := range pc.Results {
+		c := x.code()
+		err2xx = err2xx || (x.Err && c >= 200 && c < 400)
+		okNon2xx = okNon2xx || (!x.Err && c >= 400)
+		names[x.Attack] = true
+	}
+	if err2xx {
+		s.Count("plot:has-error-with-2xx/3xx-code")
+	}
+	if okNon2xx {
+		s.Count("plot:has-no-error-with-4xx/5xx-code")
+	}
+	for _, pr := range confusable {
+		if names[pr[0]] && names[pr[1]] {
+			s.Count("plot:confusable-attack-names")
+			break
+		}
+	}
+	if pc.Labeler != "" {
+		s.Count("plot:labeler=" + pc.Labeler)
+	}
+	if pc.Interim {
+		s.Count("plot:interim-data-call")
+	}
 	n := len(pc.Results)
 	switch {
 	case n <= 10:
@@ -1048,7 +1168,7 @@ func plotStreams(c *run.Ctx, s *kit.Summary, r *kit.Rng) {
 			}
 			o := implPlot(pc, true)
 			st.Add(fmt.Sprintf("c17.plot %d %s", th, resultsTokens(pc.Results)), o.line)
-			oraclePlot(s, pc, o, "VerifData")
+			oracleLib(s, pc, o)
 			recordPlot(s, pc, o)
 			s.Count("plot:all-permutations")
 			if ref == "" {
@@ -1061,18 +1181,36 @@ func plotStreams(c *run.Ctx, s *kit.Summary, r *kit.Rng) {
 	}
 	flush(c, s, st, false)
 
+	// (1b) a plot without any result
+	for _, th := range []int{0, 1, 3, 4000} {
+		pc := plotCase{Op: "plot", Threshold: th}
+		o := implPlot(pc, true)
+		st.Add(plotOp(pc), o.line)
+		oracleLib(s, pc, o)
+		s.Case(plotCaseKey(pc), false)
+		s.Count("plot:no-results")
+	}
+
 	// (2) generated sets in several random arrival orders
 	for i := 0; i < c.N(500, 2500); i++ {
-		base := genResults(r, g)
+		gi := g
+		if i%3 == 0 {
+			gi.spanCapMs = 0 // attacks may last longer than 2^27 ms (a series may begin that late)
+		}
+		base := genResults(r, gi)
 		th := pickThreshold(r, base)
 		ref := ""
+		labeler := ""
+		if i%5 == 3 {
+			labeler = "code" // a custom Labeler (status class) instead of ErrorLabeler
+		}
 		for _, mode := range []int{0, 1, 2, 3}[:2+r.Pick(3)] {
-			pc := plotCase{Op: "plot", Threshold: th, Results: shuffled(r, base, mode)}
+			pc := plotCase{Op: "plot", Threshold: th, Results: shuffled(r, base, mode), Labeler: labeler, Interim: i%4 == 1}
 			o := implPlot(pc, true)
 			if len(base) <= 600 || mode != 3 || i%8 == 0 { // bound the model's quadratic buffer on big reversed sets
-				st.Add(fmt.Sprintf("c17.plot %d %s", th, resultsTokens(pc.Results)), o.line)
+				st.Add(plotOp(pc), o.line)
 			}
-			oraclePlot(s, pc, o, "VerifData")
+			oracleLib(s, pc, o)
 			recordPlot(s, pc, o)
 			s.Count(fmt.Sprintf("plot:order-mode=%d", mode))
 			if i < 2 && mode == 1 {
@@ -1133,7 +1271,7 @@ func plotStreams(c *run.Ctx, s *kit.Summary, r *kit.Rng) {
 		pc := plotCase{Op: "plot", Threshold: pickThreshold(r, base), Results: shuffled(r, base, r.Pick(3))}
 		o := implPlot(pc, true)
 		st.Add(fmt.Sprintf("c17.plot %d %s", pc.Threshold, resultsTokens(pc.Results)), o.line)
-		oraclePlot(s, pc, o, "VerifData") // no-op unless the mutations left it in the domain
+		oracleLib(s, pc, o) // no-op unless the mutations left it in the domain
 		s.Case(plotCaseKey(pc), nontrivialPlot(pc))
 		s.Count("plot:mutated:outcome=" + strings.Fields(o.line)[0] + strings.Join(strings.Fields(clip(o.line, 12))[1:2], ""))
 	}
@@ -1182,7 +1320,7 @@ func plotStreams(c *run.Ctx, s *kit.Summary, r *kit.Rng) {
 		}
 		pc := plotCase{Op: "plot", Threshold: 0, Results: shuffled(r, base, 1)}
 		o := implPlot(pc, true)
-		oraclePlot(s, pc, o, "VerifData")
+		oracleLib(s, pc, o)
 		if i%3 == 0 { // the model's sort is quadratic: a sample of these goes through the driver
 			lp.Add(fmt.Sprintf("c17.plot %d %s", pc.Threshold, resultsTokens(pc.Results)), o.line)
 		}
@@ -1220,7 +1358,7 @@ func plotStreams(c *run.Ctx, s *kit.Summary, r *kit.Rng) {
 		}
 		pc := plotCase{Op: "plot", Threshold: []int{0, 0, 3, 4000}[r.Pick(4)], Results: shuffled(r, base, r.Pick(4)), Probe: "sentinel_gap"}
 		o := implPlot(pc, true)
-		oraclePlot(s, pc, o, "VerifData")
+		oracleLib(s, pc, o)
 		lp.Add(fmt.Sprintf("c17.plot %d %s", pc.Threshold, resultsTokens(pc.Results)), o.line)
 		s.Case(plotCaseKey(pc), nontrivialPlot(pc))
 		s.Count("plot:sentinel-gap")
@@ -1300,7 +1438,7 @@ func plotStreams(c *run.Ctx, s *kit.Summary, r *kit.Rng) {
 		}
 		pc := plotCase{Op: "plot", Threshold: []int{0, 0, n + 1, 4000}[r.Pick(4)], Results: order, Probe: "large_flush"}
 		o := implPlot(pc, true)
-		oraclePlot(s, pc, o, "VerifData")
+		oracleLib(s, pc, o)
 		lp.Add(fmt.Sprintf("c17.plot %d %s", pc.Threshold, resultsTokens(pc.Results)), o.line)
 		s.Case(plotCaseKey(pc), true)
 		recordFlush(s, pc)
@@ -1511,6 +1649,140 @@ func plotCmdStream(c *run.Ctx, s *kit.Summary, r *kit.Rng) {
 }
 
 // ---------------------------------------------------------------------------
+// the real command line: `vegeta plot [-threshold N] [-title T] [-output F] [file…]`
+
+// plotCLIStream runs the vegeta binary as a user would (flag parsing, default values, stdin and
+// stdout defaults) and evaluates the oracle on the data block of the page it writes.
+func plotCLIStream(c *run.Ctx, s *kit.Summary, r *kit.Rng) {
+	maxResults := 300
+	if c.Tier == "thorough" {
+		maxResults = 2000
+	}
+	for i := 0; i < c.N(8, 48); i++ {
+		variant := i % 4
+		base := genResults(r, genOpts{maxResults: maxResults, spanCapMs: tszFirstLimit - 1000})
+		th := pickThreshold(r, base)
+		format := []string{"gob", "csv", "json"}[r.Pick(3)]
+		if variant == 2 { // no -threshold flag: the documented default of 4000 applies
+			th = 4000
+			if i%8 == 2 { // … and one series is longer than that
+				n := 4001 + r.Pick(600)
+				ts := int64(1400000000e9) + r.Range(0, 1e18)
+				base = base[:0]
+				for j := 0; j < n; j++ {
+					ts += r.Range(0, 4e6)
+					base = append(base, res{"default-threshold", uint64(j), ts, r.Range(1e5, 2e9), r.Chance(0.01)})
+				}
+			}
+		}
+		pc := plotCase{Op: "plotcli", Threshold: th, Results: shuffled(r, base, r.Pick(3)), Format: format}
+		args := []string{"plot"}
+		outPath := filepath.Join(c.Work, fmt.Sprintf("cli-%d.html", i))
+		title := titles[r.Pick(len(titles))]
+		switch variant {
+		case 0:
+			args = append(args, "-threshold", strconv.Itoa(th), "-title", title, "-output", outPath)
+		case 1:
+			args = append(args, fmt.Sprintf("--threshold=%d", th)) // stdin → stdout
+		case 2:
+			args = append(args, "-output", outPath, "-title", title)
+		default:
+			args = append(args, "--output="+outPath, "--threshold", strconv.Itoa(th))
+		}
+		var files []string
+		var stdin []byte
+		if variant == 1 {
+			fn := filepath.Join(c.Work, fmt.Sprintf("cli-%d-in.%s", i, format))
+			if err := writeResults(fn, format, pc.Results); err != nil {
+				s.Skipped["plotcli:write-failed"]++
+				continue
+			}
+			stdin, _ = os.ReadFile(fn)
+			os.Remove(fn)
+		} else {
+			k := 1 + r.Pick(3)
+			parts := make([][]res, k)
+			for _, x := range pc.Results {
+				q := r.Pick(k)
+				parts[q] = append(parts[q], x)
+			}
+			for q, part := range parts {
+				if len(part) == 0 {
+					continue
+				}
+				fn := filepath.Join(c.Work, fmt.Sprintf("cli-%d-%d.%s", i, q, format))
+				if err := writeResults(fn, format, part); err != nil {
+					s.Skipped["plotcli:write-failed"]++
+				}
+				files = append(files, fn)
+			}
+			args = append(args, files...)
+		}
+		cmd := exec.Command(c.Vegeta, args...)
+		cmd.Env = nil
+		for _, e := range os.Environ() {
+			if !strings.HasPrefix(e, "VEGETA_VERIF_DRIVER=") {
+				cmd.Env = append(cmd.Env, e)
+			}
+		}
+		cmd.Stdin = bytes.NewReader(stdin)
+		var stdout, stderr bytes.Buffer
+		cmd.Stdout, cmd.Stderr = &stdout, &stderr
+		done := make(chan error, 1)
+		if err := cmd.Start(); err != nil {
+			s.Diverge("plotcli", strings.Join(args, " "), "", "cannot start vegeta: "+err.Error())
+			return
+		}
+		go func() { done <- cmd.Wait() }()
+		var runErr error
+		select {
+		case runErr = <-done:
+		case <-time.After(120 * time.Second):
+			cmd.Process.Kill()
+			runErr = fmt.Errorf("timeout")
+		}
+		s.Streams["plotcli"]++
+		s.Case(plotCaseKey(pc), nontrivialPlot(pc))
+		s.Count(fmt.Sprintf("plotcli:variant=%d", variant))
+		ref := implPlot(pc, true)
+		o := plotOut{addErr: -1}
+		if runErr != nil {
+			o.dataErr = fmt.Errorf("%v: %s", runErr, clip(stderr.String(), 300))
+			o.line = "err data"
+		} else {
+			html := stdout.Bytes()
+			if variant != 1 {
+				b, err := os.ReadFile(outPath)
+				if err != nil {
+					s.Violate(kit.Violation{Kind: "plotcli_no_output", What: "vegeta plot wrote no page to the file given with -output", Input: pc,
+						Observed: strings.Join(args, " ")})
+					continue
+				}
+				html = b
+			}
+			rows, labels, err := parseHTML(string(html))
+			if err != nil {
+				s.Violate(kit.Violation{Kind: "plotcli_html", What: "cannot extract the data block from the page: " + err.Error(), Input: pc,
+					Observed: clip(string(html), 200)})
+				continue
+			}
+			o.rows, o.labels = rows, labels
+			o.line = dataLine(rows, labels)
+		}
+		s.Count("plotcli:outcome=" + strings.Fields(o.line)[0])
+		oraclePlot(s, pc, o, "HTML data block (command line)")
+		if o.line != ref.line {
+			s.Violate(kit.Violation{Kind: "plotcli_differs", What: "data block written by `vegeta " + strings.Join(args[:min(6, len(args))], " ") + " …` differs from the library's data for the same results and threshold",
+				Input: pc, Expected: clip(ref.line, 600), Observed: clip(o.line, 600), Key: map[string]interface{}{"variant": variant, "threshold": th}})
+		}
+		os.Remove(outPath)
+		for _, f := range files {
+			os.Remove(f)
+		}
+	}
+}
+
+// ---------------------------------------------------------------------------
 
 func replay(c *run.Ctx, s *kit.Summary) {
 	b, err := os.ReadFile(c.Replay)
@@ -1539,20 +1811,20 @@ func replay(c *run.Ctx, s *kit.Summary) {
 		runDownsampleCase(s, st, bk, d, true)
 		st.Diff(c.Driver, s)
 		bk.Diff(c.Driver, s)
-	case "plot", "adds", "plotcmd":
+	case "plot", "adds", "plotcmd", "plotcli":
 		var pc plotCase
 		if err := json.Unmarshal(rec.Input, &pc); err != nil {
 			panic(err)
 		}
 		o := implPlot(pc, pc.Op != "adds")
-		oraclePlot(s, pc, o, "VerifData")
+		oracleLib(s, pc, o)
 		s.Case(plotCaseKey(pc), true)
 		{
-			st := &kit.Stream{Name: "c17." + map[string]string{"plot": "plot", "plotcmd": "plot", "adds": "adds"}[pc.Op]}
+			st := &kit.Stream{Name: "c17." + map[string]string{"plot": "plot", "plotcmd": "plot", "plotcli": "plot", "adds": "adds"}[pc.Op]}
 			if pc.Op == "adds" {
 				st.Add("c17.adds "+resultsTokens(pc.Results), o.line)
 			} else {
-				st.Add(fmt.Sprintf("c17.plot %d %s", pc.Threshold, resultsTokens(pc.Results)), o.line)
+				st.Add(plotOp(pc), o.line)
 			}
 			st.Diff(c.Driver, s)
 		}
@@ -1584,4 +1856,6 @@ func runC17(c *run.Ctx, s *kit.Summary) {
 	lap("plot")
 	plotCmdStream(c, s, r)
 	lap("plotcmd")
+	plotCLIStream(c, s, r)
+	lap("plotcli")
 }
